@@ -551,7 +551,7 @@ def run_engine(ctx, profile, n, steps):
     return ctx[key]
 
 
-def engine_part(profile, nq, nt, steps, claim, nontrivial_keys):
+def engine_part(profile, nq, nt, steps, claim, nontrivial_keys, monitors=()):
     profiles = profile
     def fn(ctx):
         profile = profiles if isinstance(profiles, str) else (profiles[0] if QUICK(ctx) else profiles[1])
@@ -572,6 +572,22 @@ def engine_part(profile, nq, nt, steps, claim, nontrivial_keys):
         for f, o in evalfail:
             p.violation("model-eval-failed", "cases file %s did not evaluate: %s" % (f, o[-600:]), dict(log=o), found_input=False)
         seen = set()
+        # direct property monitors evaluated by the harness on the observed states
+        nmon = 0
+        for hi, hh in enumerate(hist):
+            for si, st in enumerate(hh["steps"]):
+                for note in st.get("monitor") or []:
+                    key = note.split(":")[0]
+                    if key not in monitors:
+                        continue
+                    nmon += 1
+                    if key in seen:
+                        continue
+                    seen.add(key)
+                    p.violation(key, "step %d (%s) of history %d (seed %s): %s" % (si, st["kind"], hi, hh["seed"], note),
+                                dict(kind="engine-monitor", profile=profile, history_seed=hh["seed"], step=si, note=note,
+                                     history=[dict(kind=x["kind"], op=x["op"], resp=x["resp"]) for x in hh["steps"][:si + 1]]))
+        p.info["monitor_notes"] = nmon
         for m in mism:
             try:
                 mine = claim(m["kind"], m["mm"], hist[m["h"]]["steps"][m["s"]])
@@ -1058,8 +1074,10 @@ CHECKS = {
         assumptions=BUS_ASSUME),
     "C05": dict(
         props=["C05", "Tie"],
-        parts=[engine_part("delivery", 32, 600, 45, claim_c05, ["pull_keyed", "publish_batch"]), part_ordered_publish_faults, part_c05_seek_revival],
-        rule="[+ a Publish of three same-key messages to an ordered subscription behind an outstanding same-key message, with each of its statements failing in turn: the publish fails as a whole or the chain is as the model says; written times of a batch must increase strictly (hypothesis quiet of the theorem)] engine profile delivery: 40% ordered subscriptions, keys k1 k1 k2 k3 and un-keyed messages, single and batched publishes, pulls of size 1..100, acks in any order, nacks, "
+        parts=[engine_part("delivery", 32, 600, 45, claim_c05, ["pull_keyed", "publish_batch"], monitors=("overtake", "seek-revival-overtake")),
+               engine_part("seek", 16, 300, 45, claim_c05, ["pull_keyed"], monitors=("overtake", "seek-revival-overtake")),
+               part_ordered_publish_faults, part_c05_seek_revival],
+        rule="[+ ordering monitor: the property evaluated DIRECTLY on every observed pull of the delivery and seek profiles (a keyed message handed out while an earlier same-key one is outstanding), under the client discipline of the theorem] [+ a Publish of three same-key messages to an ordered subscription behind an outstanding same-key message, with each of its statements failing in turn: the publish fails as a whole or the chain is as the model says; written times of a batch must increase strictly (hypothesis quiet of the theorem)] engine profile delivery: 40% ordered subscriptions, keys k1 k1 k2 k3 and un-keyed messages, single and batched publishes, pulls of size 1..100, acks in any order, nacks, "
              "lease and retention expiry, dead-lettering, seeks, prunes; owned projection: predecessor links written by Publish, Pull selection/response, link nulling by the delivery prunes; "
              "non-trivial = keyed messages pulled, batches",
         assumptions=BUS_ASSUME + ["history theorem under the environment hypotheses of Bus/T_C05.v (quiet, disciplined H1-H6)",
